@@ -28,6 +28,7 @@ type Solver struct {
 	log     io.Writer
 	name    string
 	timeout int // ms
+	onSlow  func(d time.Duration, r string)
 }
 
 func solverArgv(name string, timeoutMs int) []string {
@@ -147,6 +148,12 @@ func (s *Solver) ref(t *Term) string {
 		}
 	}
 	body := "(" + t.head() + " " + strings.Join(parts, " ") + ")"
+	if t.op == "sbv2int" {
+		w := t.args[0].sort.W
+		p2 := new(big.Int).Lsh(big.NewInt(1), uint(w))
+		zero := (&Term{op: "const", sort: sortBV(w)}).constSMT()
+		body = fmt.Sprintf("(ite (bvslt %s %s) (- (bv2nat %s) %s) (bv2nat %s))", parts[0], zero, parts[0], p2.String(), parts[0])
+	}
 	if len(t.args) == 0 {
 		body = t.head()
 	}
@@ -179,7 +186,14 @@ func (s *Solver) Check() SatResult {
 	s.send("(check-sat)")
 	s.in.Flush()
 	t0 := time.Now()
-	defer func() { s.Time += time.Since(t0) }()
+	res := "?"
+	defer func() {
+		d := time.Since(t0)
+		s.Time += d
+		if d > 3*time.Second && s.onSlow != nil {
+			s.onSlow(d, res)
+		}
+	}()
 	s.Queries++
 	sawErr := false
 	for {
@@ -199,14 +213,17 @@ func (s *Solver) Check() SatResult {
 				s.Unknown++
 				return UnknownRes
 			}
+			res = "sat"
 			return Sat
 		case line == "unsat":
 			if sawErr {
 				s.Unknown++
 				return UnknownRes
 			}
+			res = "unsat"
 			return Unsat
 		case line == "unknown" || line == "timeout":
+			res = "unknown"
 			s.Unknown++
 			return UnknownRes
 		case strings.HasPrefix(line, "(error"):
